@@ -213,6 +213,9 @@ func genBatch(c *Cer, round string, proposer int, bno int, prev [][]byte, maxBak
 			if w.Tape.Bool(1, 2, "mixBaked") {
 				start := bakedStart(w)
 				ln := 1 + w.Tape.Choose(maxBaked, "bakedLen")
+				if w.Tape.Bool(1, 4, "emptyRangeAmongTasks") {
+					ln = 0 // a range that stands for no message at all, next to tasks that do
+				}
 				if start+ln > 18632 {
 					ln = 18632 - start
 				}
@@ -319,6 +322,7 @@ func runSignScenario(w *World, tier string, prop string) (bool, interface{}) {
 		}
 	}
 	var pendingRelease []string // batches whose slow answers are released when the next proposal is on the board
+	resumeLater := -1           // a stalled node that resumes only once the next proposal is on the board
 	for b := 0; b < nb && !w.Failed(); b++ {
 		k := t + w.Tape.Choose(n-t+1, "extraSigners")
 		perm := permOf(w, n)
@@ -395,6 +399,21 @@ func runSignScenario(w *World, tier string, prop string) (bool, interface{}) {
 		if prop == "C07" && !cancelBatch && !fast[proposer] && racer != proposer && n-1 >= t && w.Tape.Bool(1, 2, "proposerStalls") {
 			stalled = proposer
 		}
+		// C01: any node that is not needed for this batch may sit it out (its process
+		// does not poll for a while) and catch up later, possibly while the next
+		// batch is running: what it then combines, publishes and stores about the
+		// old batch must be as valid as everybody else's
+		if prop == "C01" && faulty < 0 && n-1 >= t && b+1 < nb && w.Tape.Bool(1, 3, "oneNodeSitsOut") {
+			if k == n {
+				delete(fast, perm[n-1])
+				k = n - 1
+			}
+			for _, i := range perm {
+				if !fast[i] {
+					stalled = i
+				}
+			}
+		}
 		d := genBatch(c, round, proposer, b, prev, maxBaked)
 		// the proposal must reach the board before we can name the batch
 		c.L.RunUntil(func() bool { return len(c.Tr.Order) > before }, 20*n)
@@ -403,6 +422,13 @@ func runSignScenario(w *World, tier string, prop string) (bool, interface{}) {
 			descs = append(descs, d+" (not accepted)")
 			continue
 		}
+		if resumeLater >= 0 {
+			// the node that sat out the previous batch only now goes on reading: what it
+			// publishes about that batch lands behind this batch's proposal
+			delete(c.L.PausedPoll, resumeLater)
+			resumeLater = -1
+			w.Stats.Fault("stalled-node-catches-up-during-the-next-batch")
+		}
 		bi := c.Tr.LastBatch()
 		if len(bi.Msgs) == 0 {
 			// a proposal that expands to nothing (empty baked range) is refused by every
@@ -410,7 +436,8 @@ func runSignScenario(w *World, tier string, prop string) (bool, interface{}) {
 			delete(c.L.PausedPoll, racer)
 			racer, stalled, cancelBatch = -1, -1, false
 			descs = append(descs, d+" (expands to no message)")
-			c.L.RunUntil(func() bool { return false }, 3*n)
+			// long enough for machines to sign and nodes to combine, were anything to be signed
+			c.L.RunUntil(func() bool { return false }, 14*n)
 			continue
 		}
 		if racer >= 0 {
@@ -521,7 +548,11 @@ func runSignScenario(w *World, tier string, prop string) (bool, interface{}) {
 				w.Stats.Probe("batch-completed-while-proposer-stalled")
 			}
 			d += "+proposer-stalled"
-			delete(c.L.PausedPoll, stalled) // it resumes and has to catch up as well
+			if b+1 < nb && w.Tape.Bool(1, 2, "resumesDuringNextBatch") {
+				resumeLater = stalled
+			} else {
+				delete(c.L.PausedPoll, stalled) // it resumes and has to catch up as well
+			}
 		}
 		if !ok && len(bi.Msgs) > 0 && len(bi.Answered) >= t && prop == "C07" && !w.Failed() {
 			w.Fail(prop, "batch-not-reconstructed", fmt.Sprintf("batch #%d (%s), correctly answered by %d >= t=%d participants, is not stored by every node / round not idle (states %v)", b, d, len(bi.Answered), t, states(c, round)))
@@ -542,6 +573,9 @@ func runSignScenario(w *World, tier string, prop string) (bool, interface{}) {
 			}
 		}
 		c.L.RunUntil(func() bool { return false }, 3*n)
+	}
+	if resumeLater >= 0 {
+		delete(c.L.PausedPoll, resumeLater)
 	}
 	// C01 "under that round's group key": a second key generation among a
 	// different participant set on the same node processes, then the same
